@@ -88,7 +88,10 @@ func optOf(tok, jail string, ctx context.Context) gtree.Option {
 	case "noiter":
 		return gtree.WithNoUseIterOfSimpleOutput()
 	case "massive":
-		return gtree.WithMassive(ctx)
+		// ONE option value for the whole process (a caller's "opts := []gtree.Option{gtree.WithMassive(ctx)}" used for
+		// call after call): what one call does with it, the next one must not see
+		sharedMassiveOnce.Do(func() { sharedMassiveOpt = gtree.WithMassive(context.Background()) })
+		return sharedMassiveOpt
 	case "mcancel":
 		cctx, cancel := context.WithCancel(ctx)
 		cancel()
@@ -106,6 +109,11 @@ func optOf(tok, jail string, ctx context.Context) gtree.Option {
 }
 
 var sharedExtsDup = []string{".x", ".y", ".x"}
+
+var (
+	sharedMassiveOnce sync.Once
+	sharedMassiveOpt  gtree.Option
+)
 
 func snapshot(dir string) []string {
 	var out []string
